@@ -34,6 +34,9 @@ CLAIMED = {
  "C13": ("ownership/aliasing rule on the dup family, type-switch and Kind tables, dominance of cycle memos, sort-comparator and map-order lints, parameter pass-through, SSA path tables",
          "Static necessary conditions only: no structural aliasing in the dup family, exhaustive kind tables, memo-before-recursion, order-free hashing (comparators, map ranges), Equal defined through Hash with one flag triple, flags passed through every recursive hash call, Hash's documented flag semantics on hashUserType. Does not decide equality of copy and original on all graphs nor hash collisions.",
          "DESIGN.md §3 C13"),
+ "C14": ("CONSUMES via reachability-scoped field reads, keyword fidelity tables over assignments and helper calls, flag tables of the Swagger 2 helpers, keyword-template variants, walker/collection and must-validate lints",
+         "Static necessary conditions only: schemas and validators are translations of the same ValidationExpr that agree keyword by keyword (consumption, like-named fidelity, inclusive/exclusive semantics, required lists), and the decoder returns the validation errors it computes. Does not decide acceptance equivalence on values.",
+         "DESIGN.md §3 C14"),
  "C15": ("SSA path tables (media-type→codec decision tables, effect traces), type-switch tables",
          "Static necessary conditions only: the codec decision tables of ResponseEncoder/ResponseDecoder/RequestDecoder/negotiate agree with one reference table (hence with each other), the announced media type belongs to the returned encoder on every path, no nil encoder, 415 wiring, SetContentType composition table. Does not decide byte-level round trips, Accept grammar or third-party codecs.",
          "DESIGN.md §3 C15"),
